@@ -260,7 +260,7 @@ def run(ctx):
     # module-level tables), and the SAME string constructed repeatedly
     from .. import conc
     cold_ops = [["C", v, s] for v, s in probes_[:: max(1, len(probes_) // 150)] if core.sendable(s)]
-    conc.cold_start(ctx, cold_ops, "any", runs=ctx.n(4, 16), nthreads=8)
+    conc.cold_start(ctx, cold_ops, "any", runs=ctx.n(21, 45), nthreads=16)
     for v, s in probes_[:: max(1, len(probes_) // ctx.n(300, 3000))]:
         outs = [probe_out(v, s) for _ in range(4)]
         ctx.count(4)
